@@ -1879,3 +1879,146 @@ pub fn generate_valid(rng: &mut Rng, prof: Profile, cfg: &GenCfg) -> Result<(Gen
     }
     Err(last)
 }
+
+// ------------------------------------------------------------------------------------
+// ground truth recovered from bytes (explicit witnesses, fixture bases)
+
+fn vt_of(v: wasmparser::ValType) -> VT {
+    use wasmparser::{AbstractHeapType as A, HeapType as H, ValType as W};
+    match v {
+        W::I32 => VT::I32,
+        W::I64 => VT::I64,
+        W::F32 => VT::F32,
+        W::F64 => VT::F64,
+        W::V128 => VT::V128,
+        W::Ref(r) => match r.heap_type() {
+            H::Abstract { ty, .. } => match ty {
+                A::Func => VT::FuncRef,
+                A::Extern => VT::ExternRef,
+                A::Any => VT::AnyRef,
+                A::Eq => VT::EqRef,
+                A::I31 => VT::I31Ref,
+                A::Struct => VT::StructRef,
+                A::Array => VT::ArrayRef,
+                A::Exn => VT::ExnRef,
+                _ => VT::AnyRef,
+            },
+            H::Concrete(i) => VT::RefNull(i.as_module_index().unwrap_or(0)),
+        },
+    }
+}
+
+/// Rebuild the generator's bookkeeping for an arbitrary valid module.
+pub fn info_from_bytes(bytes: &[u8]) -> Result<GenModule, String> {
+    use wasmparser::{CompositeInnerType, Parser, Payload, TypeRef};
+    let mut g = GenModule { bytes: bytes.to_vec(), profile: "from-bytes", flags: u32::MAX, ..Default::default() };
+    let mut max_fp = 0u32;
+    for p in Parser::new(0).parse_all(bytes) {
+        match p.map_err(|e| e.to_string())? {
+            Payload::TypeSection(r) => {
+                for grp in r {
+                    for st in grp.map_err(|e| e.to_string())?.types() {
+                        g.types.push(match &st.composite_type.inner {
+                            CompositeInnerType::Func(f) => {
+                                TyInfo::Func(f.params().iter().map(|v| vt_of(*v)).collect(), f.results().iter().map(|v| vt_of(*v)).collect())
+                            }
+                            CompositeInnerType::Struct(s) => TyInfo::Struct(
+                                s.fields
+                                    .iter()
+                                    .map(|f| {
+                                        (
+                                            match f.element_type {
+                                                wasmparser::StorageType::Val(v) => vt_of(v),
+                                                _ => VT::I32,
+                                            },
+                                            f.mutable,
+                                        )
+                                    })
+                                    .collect(),
+                            ),
+                            CompositeInnerType::Array(a) => TyInfo::Array(
+                                match a.0.element_type {
+                                    wasmparser::StorageType::Val(v) => vt_of(v),
+                                    _ => VT::I32,
+                                },
+                                a.0.mutable,
+                            ),
+                            CompositeInnerType::Cont(_) => TyInfo::Func(vec![], vec![]),
+                        });
+                    }
+                }
+            }
+            Payload::ImportSection(r) => {
+                for i in r {
+                    match i.map_err(|e| e.to_string())?.ty {
+                        TypeRef::Func(t) => {
+                            g.func_types.push(t);
+                            g.func_uids.push(None);
+                            g.n_imp_funcs += 1;
+                        }
+                        TypeRef::Global(gt) => {
+                            g.globals.push(GlobalInfo { ty: vt_of(gt.content_type), mutable: gt.mutable, imported: true });
+                            g.n_imp_globals += 1;
+                        }
+                        TypeRef::Memory(m) => {
+                            g.mems.push(MemInfo { imported: true, mem64: m.memory64, shared: m.shared, min: m.initial });
+                            g.n_imp_mems += 1;
+                        }
+                        TypeRef::Table(t) => g.tables.push(TableInfo { imported: true, elem: vt_of(wasmparser::ValType::Ref(t.element_type)), min: t.initial }),
+                        TypeRef::Tag(_) => g.n_tags += 1,
+                    }
+                }
+            }
+            Payload::FunctionSection(r) => {
+                for f in r {
+                    g.func_types.push(f.map_err(|e| e.to_string())?);
+                    g.func_uids.push(None);
+                }
+            }
+            Payload::TableSection(r) => {
+                for t in r {
+                    let t = t.map_err(|e| e.to_string())?;
+                    g.tables.push(TableInfo { imported: false, elem: vt_of(wasmparser::ValType::Ref(t.ty.element_type)), min: t.ty.initial });
+                }
+            }
+            Payload::MemorySection(r) => {
+                for m in r {
+                    let m = m.map_err(|e| e.to_string())?;
+                    g.mems.push(MemInfo { imported: false, mem64: m.memory64, shared: m.shared, min: m.initial });
+                }
+            }
+            Payload::GlobalSection(r) => {
+                for gl in r {
+                    let gl = gl.map_err(|e| e.to_string())?;
+                    g.globals.push(GlobalInfo { ty: vt_of(gl.ty.content_type), mutable: gl.ty.mutable, imported: false });
+                }
+            }
+            Payload::TagSection(r) => g.n_tags += r.count(),
+            Payload::ElementSection(r) => g.n_elems = r.count(),
+            Payload::DataSection(r) => g.n_datas = r.count(),
+            Payload::StartSection { .. } => g.has_start = true,
+            Payload::CodeSectionEntry(b) => {
+                let mut n = 0;
+                let mut first: Option<i32> = None;
+                for (k, op) in b.get_operators_reader().map_err(|e| e.to_string())?.into_iter().enumerate() {
+                    let op = op.map_err(|e| e.to_string())?;
+                    if k == 0 {
+                        if let wasmparser::Operator::I32Const { value } = op {
+                            first = Some(value);
+                        }
+                    }
+                    n += 1;
+                }
+                g.body_lens.push(n);
+                if let Some(v) = first {
+                    if (v as u32) >= FP_BASE {
+                        max_fp = max_fp.max(v as u32 - FP_BASE);
+                    }
+                }
+            }
+            _ => {}
+        }
+    }
+    g.next_uid = max_fp + 1000;
+    Ok(g)
+}
